@@ -123,7 +123,7 @@ PROPS = {
                     "steps exists + every such step decreases a measure' (fair scheduler, terminating tasks); oracle only: "
                     "IOTaskPool buffer exclusivity/size (c19-iobuf), the custom-caller variant of New (run against the same model, its wrapper "
                     "is not modelled), that caller's recover covers worker and dispatcher (c19-panic); the parallelism "
-                    "theorem (c19_parallelism_new) gives n-1 simultaneous tasks for New(n, q) (n-2 workers + the dispatcher), not n; TaskPool.Call (caller(f) inline) is neither modelled nor exercised; the driver accepts any stable "
+                    "theorem (c19_parallelism_new) gives n-1 simultaneous tasks for New(n, q) (n-2 workers + the dispatcher), not n; TaskPool.Call (caller(f) inline) is in the model with theorems (c19_call_accepts / _ends / _outside_bound: never refuses, not subject to the bound, covered by conservation / exactly-once / completion) but the correspondence does not exercise it yet (no htpool op: that Call is caller(f) rests on reading the source); the driver accepts any stable "
                     "successor state of the model (belief set), queue order is observed only through later start order",
             "technique": "Lean 4 proof (inductive invariants of a transition system) + schedule replay / differential correspondence"},
         "lean": ["NbioVerif.Properties.C19"], "drivers": ["tpooldrv", "jobqdrv"], "harness": ["htpool", "hjobq"],
